@@ -103,9 +103,10 @@ PROPS = {
     ),
     'C17': dict(
         families=['typed'], reports=['marshal', 'unmarshal'],
-        proof_files=['Abstract/PathsAlias.v'],
-        theorems='c17_append_spec, c17_siblings_isolated, c17_taps_are_true_paths (for every growth policy of append)',
-        assumptions=['the aliasing model (Abstract/PathsAlias.v) is tied to the code through the marshal tap-log correspondence (Model/MarshalTaps.v evaluated in Coq) and, for unmarshal taps and error paths, through a Go-side reference path computation'],
+        proof_files=['Abstract/PathsAlias.v', 'Proofs/PathsP.v'],
+        theorems='c17_append_spec, c17_siblings_isolated, c17_taps_are_true_paths (for every growth policy of append); Snapshots.c17_snapshot_stable, c17_view_stable_when_full, c17_runs_taps_true_paths, c17_runs_independent (+ c17_view_refuted, c17_hdrs_refuted: why errors must copy the path); MarshalTaps.c17_marshal_taps_are_paths [the executable tap model = the declarative path of every element], c17_root_tap_path, c17_taps_extend_root, c17_sibling_taps_disjoint, c17_taps_count (+ c17_marshal_taps_tied_keys_edge)',
+        assumptions=['the aliasing model (Abstract/PathsAlias.v) and the tap model (Model/MarshalTaps.v) are tied to the code through the marshal tap-log correspondence (the tap model evaluated in Coq on every generated value) and, for unmarshal taps and error paths, through a Go-side reference path computation (incl. literal conversion errors, errors kept across runs that share a base context, sb.Tuple / pre-filled targets)',
+                     'there is no Coq model of unmarshal taps and error paths: on that side the theorems are the snapshot / view contrast and the sequential-runs theorem of the aliasing model'],
     ),
     'C18': dict(
         families=['heap'], reports=['heap'],
@@ -116,10 +117,10 @@ PROPS = {
     ),
     'C19': dict(
         families=['conc'], reports=['conc'], race=True, pool_pattern=True, model_cases=False,
-        proof_files=['Abstract/PoolSchedules.v'],
-        theorems='c19_pool_exclusive, c19_init, c19_results_schedule_independent (all schedules, protocol model)',
+        proof_files=['Abstract/PoolSchedules.v', 'Abstract/MemoSchedules.v'],
+        theorems='pools: c19_pool_exclusive, c19_init, c19_results_schedule_independent; caches and registries: Caches.c19_memo_inv, c19_memo_schedule_independent, c19_memo_same_as_alone, c19_nested_memo_schedule_independent, c19_registry_entries_never_change, c19_registry_monotone, c19_registry_consistent_pairs, c19_registered_before_start_independent (+ c19_registry_window_edge, c19_registry_name_collision_edge) - all schedules, protocol models',
         level='proof',
-        assumptions=['PARTIAL: the theorems are about the interleaving model of the pool protocol; data races are a property of the Go memory model and of every memory access in the package, which no Gallina model exhibits: that half is sampled by stress runs under the race detector (G in 2..64, varied GOMAXPROCS, pools exhausted through the verif hooks), and the model\'s atomic-step assumption (Get .. defer Put, buffer not escaping) is checked syntactically on the source on every run',
+        assumptions=['PARTIAL: the theorems are about interleaving models of ALL the package-level state pipelines share - the two scratch-buffer pools (Abstract/PoolSchedules.v) and the memo tables and registries (Abstract/MemoSchedules.v: sync.Map Load / Store / LoadOrStore as atomic steps, the deferred Store of type_name.go and deprecated_fields.go, the two LoadOrStores of Register); data races are a property of the Go memory model and of every memory access in the package, which no Gallina model exhibits: that half is sampled by stress runs under the race detector (G in 2..64, varied GOMAXPROCS, pools exhausted through the verif hooks), and the model\'s atomic-step assumption (Get .. defer Put, buffer not escaping) is checked syntactically on the source on every run',
                      'sync.Map, sync.Pool and sync/atomic are trusted'],
     ),
     'C20': dict(
